@@ -81,6 +81,8 @@ def run(ctx):
         enc_int = [b["nodata"] if mm else x for x, mm in zip(v, m)]
         enc_f64 = [None if mm else float(x) for x, mm in zip(v, m)]
         a, off = int(rng.integers(1, 4)), int(rng.integers(-200, 200))
+        if (len(cases) // 4) % 2:
+            a = -a                                     # C15_reflection_invariant: a sign flip of the whole series
         aff = [b["nodata"] if mm else a * x + off for x, mm in zip(v, m)]
         ok_aff = all(-32768 <= t <= 32767 and t != b["nodata"] for t, mm in zip(aff, m) if not mm)
         cases.append(dict(data=enc_int, dtype="int16", nodata=b["nodata"], accessor=b["accessor"]))
@@ -131,7 +133,7 @@ def run(ctx):
             sa = sum((v - sum(va) / len(va)) ** 2 for v in va) if va else 0.0
             tol_aff = 1e-9 + (8 * 2.0 ** -53 * sum(v * v for v in va) / sa if sa > 0 else 0.0)     # the rescaled series sits on another level
             if abs(r_aff - r_int) > tol64 + tol_aff:
-                spec_fail.append((dict(full, affine=cs[3]["data"] if n <= 24 else None), "positive affine rescaling changes the value: %r vs %r" % (r_aff, r_int)))
+                spec_fail.append((dict(full, affine=cs[3]["data"] if n <= 24 else None), "affine rescaling (scale %s 0) changes the value: %%r vs %%r" % (">" if (cases.index(cs[3]) // 4) % 2 == 0 else "<") % (r_aff, r_int)))
         for c, r in zip(cs, rs):
             if r["dtypes"] != ["float32", "float32"] or abs(r["yxt"] - float(np.float32(r["r64"]))) > 0 or abs(r["tyx"] - float(np.float32(r["r64"]))) > 0:
                 spec_fail.append((dict(full, dtype=c["dtype"]), "(y,x,t) / (t,y,x) drivers differ from float32(autocorr_1d): %r %r %r" % (r["yxt"], r["tyx"], r["r64"])))
@@ -149,7 +151,7 @@ def run(ctx):
     ctx.cov["distinct_nontrivial"] = len(set(icoq)) + len(set(fcoq))
     ctx.cov["rule"] = ("seeded series (length 3..%d; random, seasonal, random walk, large level with small spread, constant) with gap patterns none / "
                        "scattered / contiguous outage up to 90%% / leading / trailing, each encoded as int16+nodata, float64+NaN, float32+NaN and a "
-                       "positive affine image; kernel, both layout drivers and the accessor; distinct series counted" % (900 if ctx.thorough else 300))
+                       "affine image (positive and negative scale alternating); kernel, both layout drivers and the accessor; distinct series counted" % (900 if ctx.thorough else 300))
     ctx.notes.update(input_distribution=dist, cases_bit_exact=len(icoq) + len(fcoq), model_vs_impl_mismatches=len(r1["failing"]) + len(r2["failing"]),
                      spec_failures=len(spec_fail))
     ctx.add_samples([imeta[0], imeta[1], fmeta[2]])
